@@ -2,7 +2,6 @@ package chainsim
 
 import (
 	"encoding/json"
-	"math/big"
 
 	"github.com/meshplus/bitxhub-core/governance"
 
@@ -34,5 +33,3 @@ func (s *scn) afterBlockExtra(h uint64, txs []*pb.BxhTransaction, metas []*txMet
 	s.afterBlockCalls(h, txs, metas, ref)
 	afterBlockGov(s, h, txs, metas, ref)
 }
-
-func (s *scn) roleGrantsInBlock(h uint64) *big.Int { return new(big.Int) }
